@@ -774,7 +774,7 @@ instance LiveDistinct.dec : (w : World) → (ops : List Op) → Decidable (LiveD
 structure Pres (g : Bool) (P : Nat → Proto → Prop) : Prop where
   mono : ∀ {n m : Nat} {p : Proto}, P n p → n ≤ m → P m p
   init : ∀ n, P n {}
-  initS : ∀ n (rand : CID), P n { issuedG := [rand] }
+  initS : ∀ n (g : List CID), P n { issuedG := g }
   dgram : ∀ (ctx : Ctx) (s : PS) (tat : Option Nat) (evs tx : List Ev) (n : Nat), ctx.q = Quirks.fixed →
     P n s.p → P n (datagramReceived ctx s tat evs tx).1.p
   timer : ∀ (ctx : Ctx) (s : PS) (tat : Option Nat) (evs tx : List Ev) (n : Nat), ctx.q = Quirks.fixed →
@@ -905,7 +905,7 @@ theorem step_ginv (w : World) (hq : w.q = Quirks.fixed) (h : GInv P w) (op : Op)
         intro o r act
         have hq1 : ((w.markSeal tok).addServerConn addr dcid rand o r).q = Quirks.fixed := hq
         exact ginv_callback hP _ hq1
-          (ginv_append hP _ h0 { ss := true, p := { issuedG := [rand] } } (hP.initS _ rand) _ rfl rfl) _ _ _ hdg
+          (ginv_append hP _ h0 { ss := true, p := { issuedG := serverIssued rand dcid r } } (hP.initS _ _) _ rfl rfl) _ _ _ hdg
       split
       · exact ginv_callback hP _ hq0 h0 _ _ _ hdg
       · split
@@ -1413,7 +1413,7 @@ theorem RS.init (g : List CID) : RS ({ issuedG := g } : Proto) := by
 theorem presR : Pres false RJ where
   mono := fun h _ => h
   init := fun _ _ _ => RS.init []
-  initS := fun _ rand _ _ => RS.init [rand]
+  initS := fun _ g _ _ => RS.init g
   dgram := fun ctx s tat evs tx n hc h hv hs => by
     simp only [datagramReceived, queued_fixed ctx hc] at hv hs ⊢
     obtain ⟨a1, a2, a3⟩ := evs_transmit_rs ctx hc ({ s with p := { s.p with deferred := [] } } : PS) tat evs tx hv
